@@ -1,5 +1,5 @@
 /* C16 explorer: preemption-bounded exhaustive schedule exploration over pairs / triples of public operations.
- * usage: c16 pairs <bound> <shared_inputs 0|1> <part> <nparts> [deadline_s]
+ * usage: c16 [cold]pairs <bound> <shared_inputs 0|1> <part> <nparts> [deadline_s]   (cold: every schedule in a fresh process, see do_schedule)
  *        c16 triples <bound> <part> <nparts> [deadline_s]
  *        c16 replay <i> <j> <k|-1> <shared_inputs> <choice,choice,...> */
 #define _GNU_SOURCE
@@ -9,6 +9,9 @@
 #include <time.h>
 #include <sys/types.h>
 #include <errno.h>
+#include <sys/mman.h>
+#include <sys/wait.h>
+#include <unistd.h>
 
 /* deterministic, thread-safe system entropy (no shared state in the harness itself) */
 ssize_t getrandom(void *buf, size_t n, unsigned flags) { (void)flags; uint8_t *b = buf; for (size_t i = 0; i < n; i++) b[i] = (uint8_t)(0x5A ^ (i * 7)); return (ssize_t)n; }
@@ -28,32 +31,54 @@ static void reset_ctxs(void)
     memcpy(SH, SH0, sizeof *SH);
 }
 static void pair_name(char *b, size_t cap) { int l = 0; for (int t = 0; t < NT; t++) l += snprintf(b + l, cap - l, "%s%s", t ? "+" : "", OPS[OPI[t]].name); }
-static int capped;
+static int capped, COLD;
+/* one executed schedule.  Warm mode: run in this process.  Cold mode: run in a freshly forked child of a parent that has never executed library code,
+ * so that lazily initialised static storage (first-call races) is in its initial state at the start of every schedule */
+typedef struct { int np, n, diverged, bad, crashed; char why[400]; int ch[VP_MAXP], ne[VP_MAXP], re[VP_MAXP]; unsigned long instr, vis; } schedres;
+typedef struct { shared_t sh0; uint8_t refout[VP_MAXT][192]; size_t reflen[VP_MAXT]; schedres r; } arena_t;
+static arena_t *AR; static schedres *R, RLOCAL;
+static void judge(schedres *r, int np)
+{
+    r->np = np; r->diverged = vp_diverged(); r->bad = 0; r->why[0] = 0; r->n = np > VP_MAXP ? VP_MAXP : np;
+    const char *rc = vp_race();
+    if (rc) { r->bad = 1; snprintf(r->why, sizeof r->why, "%s", rc); }
+    for (int t = 0; t < NT && !r->bad; t++) if (CTX[t]->outlen[0] != REF[t]->outlen[0] || memcmp(CTX[t]->out[0], REF[t]->out[0], REF[t]->outlen[0])) { r->bad = 1; snprintf(r->why, sizeof r->why, "thread %d (%s) produced a result different from its sequential result", t, OPS[OPI[t]].name); }
+    if (!r->bad && memcmp(SH, SH0, sizeof *SH)) { r->bad = 1; snprintf(r->why, sizeof r->why, "a shared constant object (pre-computed key / masked key / shared input) was modified"); }
+    for (int i = 0; i < r->n; i++) { r->ch[i] = vp_choice(i); r->ne[i] = vp_nen(i); r->re[i] = vp_running_enabled(i); }
+    r->instr = vp_instrumented(); r->vis = vp_visible();
+}
+static unsigned long cold_instr, cold_vis;
+static void do_schedule(const int *prefix, int len)
+{
+    if (!COLD) { R = &RLOCAL; reset_ctxs(); judge(R, vp_run_schedule(NT, BODIES, prefix, len)); return; }
+    R = &AR->r; memset(R, 0, offsetof(schedres, ch)); R->crashed = 1;
+    pid_t pid = fork();
+    if (pid == 0) { reset_ctxs(); judge(R, vp_run_schedule(NT, BODIES, prefix, len)); R->crashed = 0; _exit(0); }
+    int st = 0; while (waitpid(pid, &st, 0) < 0 && errno == EINTR) { }
+    if (R->crashed) { R->bad = 1; R->np = R->n = 0; snprintf(R->why, sizeof R->why, "the process died (status 0x%x) while running this schedule from a cold start", st); }
+    cold_instr += R->instr; cold_vis += R->vis;
+}
 static void explore(const int *prefix, int len, int preempts)
 {
     if (capped) return;
     if (now() > t_end) { capped = 1; return; }
-    reset_ctxs();
-    int np = vp_run_schedule(NT, BODIES, prefix, len); nsched++; if (np > maxpoints) maxpoints = np;
-    if (vp_diverged()) { printf("HARNESS-ERROR replay diverged from its recorded prefix\n"); exit(3); }
-    const char *r = vp_race(); char why[400] = ""; int bad = 0;
-    if (r) { bad = 1; snprintf(why, sizeof why, "%s", r); }
-    for (int t = 0; t < NT && !bad; t++) if (CTX[t]->outlen[0] != REF[t]->outlen[0] || memcmp(CTX[t]->out[0], REF[t]->out[0], REF[t]->outlen[0])) { bad = 1; snprintf(why, sizeof why, "thread %d (%s) produced a result different from its sequential result", t, OPS[OPI[t]].name); }
-    if (!bad && memcmp(SH, SH0, sizeof *SH)) { bad = 1; snprintf(why, sizeof why, "a shared constant object (pre-computed key / masked key / shared input) was modified"); }
+    do_schedule(prefix, len); nsched++;
+    int np = R->np; if (np > maxpoints) maxpoints = np;
+    if (R->diverged) { printf("HARNESS-ERROR replay diverged from its recorded prefix\n"); exit(3); }
     /* distinct outcomes census: hash of the choice vector's thread order */
-    { unsigned long h = 1469598103934665603UL; for (int i = 0; i < np && i < VP_MAXP; i++) h = (h ^ (unsigned long)vp_choice(i)) * 1099511628211UL; int k; for (k = 0; k < noutcomes; k++) if (outcomes_hash[k] == h) break; if (k == noutcomes && noutcomes < 64) outcomes_hash[noutcomes++] = h; }
-    if (bad) {
+    { unsigned long h = 1469598103934665603UL; for (int i = 0; i < R->n; i++) h = (h ^ (unsigned long)R->ch[i]) * 1099511628211UL; int k; for (k = 0; k < noutcomes; k++) if (outcomes_hash[k] == h) break; if (k == noutcomes && noutcomes < 64) outcomes_hash[noutcomes++] = h; }
+    if (R->bad) {
         nviol++;
         if (nviol <= 2) {
             char pn[200], sch[600]; int l = 0; pair_name(pn, sizeof pn);
-            for (int i = 0; i < np && i < 120 && l < 580; i++) l += snprintf(sch + l, sizeof sch - l, "%s%d", i ? "," : "", vp_choice(i));
-            printf("FAIL race:%s %s | schedule=[%s] preemptions=%d shared_inputs=%d\n", pn, why, np ? sch : "", preempts, SHARED_IN);
+            for (int i = 0; i < R->n && i < 120 && l < 580; i++) l += snprintf(sch + l, sizeof sch - l, "%s%d", i ? "," : "", R->ch[i]);
+            printf("FAIL race:%s%s %s | schedule=[%s] preemptions=%d shared_inputs=%d%s\n", COLD ? "cold-start:" : "", pn, R->why, R->n ? sch : "", preempts, SHARED_IN, COLD ? " (every schedule starts in a fresh process: first-call behaviour)" : "");
         }
         return; /* the first failing schedule of a program is enough */
     }
-    int n = np > VP_MAXP ? VP_MAXP : np;
+    int n = R->n;
     int *ch = malloc(sizeof(int) * (n + 1)), *ne = malloc(sizeof(int) * (n + 1)), *re = malloc(sizeof(int) * (n + 1));
-    for (int i = 0; i < n; i++) { ch[i] = vp_choice(i); ne[i] = vp_nen(i); re[i] = vp_running_enabled(i); }
+    memcpy(ch, R->ch, sizeof(int) * n); memcpy(ne, R->ne, sizeof(int) * n); memcpy(re, R->re, sizeof(int) * n);
     for (int i = len; i < n && !nviol; i++) {
         int cost = preempts + (re[i] ? 1 : 0);
         if (cost > BOUND) continue;
@@ -63,21 +88,33 @@ static void explore(const int *prefix, int len, int preempts)
 }
 static void run_program(void)
 {
-    /* sequential reference, computed outside the scheduler */
-    for (int t = 0; t < NT; t++) { ctx_setup(REF[t], t, SH0, SHARED_IN); OPS[OPI[t]].fn(REF[t], REF[t]->out[0], &REF[t]->outlen[0]); }
+    /* sequential reference, computed outside the scheduler (cold mode: in a child, so that this process stays cold) */
+    if (!COLD) for (int t = 0; t < NT; t++) { ctx_setup(REF[t], t, SH0, SHARED_IN); OPS[OPI[t]].fn(REF[t], REF[t]->out[0], &REF[t]->outlen[0]); }
+    else {
+        pid_t pid = fork();
+        if (pid == 0) { for (int t = 0; t < NT; t++) { ctx_setup(REF[t], t, SH0, SHARED_IN); OPS[OPI[t]].fn(REF[t], REF[t]->out[0], &REF[t]->outlen[0]); memcpy(AR->refout[t], REF[t]->out[0], 192); AR->reflen[t] = REF[t]->outlen[0]; } _exit(0); }
+        int st; while (waitpid(pid, &st, 0) < 0 && errno == EINTR) { }
+        for (int t = 0; t < NT; t++) { ctx_setup(REF[t], t, SH0, SHARED_IN); memcpy(REF[t]->out[0], AR->refout[t], 192); REF[t]->outlen[0] = AR->reflen[t]; }
+    }
     nsched = 0; nviol = 0; noutcomes = 0; int empty[1];
     explore(empty, 0, 0);
     total_sched += nsched; total_pairs++;
     /* replay determinism: the default schedule run twice gives identical observations */
-    if (!nviol && !capped) { reset_ctxs(); int a = vp_run_schedule(NT, BODIES, empty, 0); uint8_t o1[192]; memcpy(o1, CTX[0]->out[0], 192); reset_ctxs(); int b = vp_run_schedule(NT, BODIES, empty, 0);
-        if (a != b || memcmp(o1, CTX[0]->out[0], 192)) { printf("HARNESS-ERROR the same schedule run twice differs (%d vs %d points)\n", a, b); exit(3); } }
+    if (!nviol && !capped) { do_schedule(empty, 0); int a = R->np; unsigned long h1 = 0; for (int i = 0; i < R->n; i++) h1 = h1 * 31 + (unsigned long)R->ch[i]; do_schedule(empty, 0); unsigned long h2 = 0; for (int i = 0; i < R->n; i++) h2 = h2 * 31 + (unsigned long)R->ch[i];
+        if (a != R->np || h1 != h2 || R->bad) { printf("HARNESS-ERROR the same schedule run twice differs (%d vs %d points)\n", a, R->np); exit(3); } }
 }
 
 int main(int argc, char **argv)
 {
     setvbuf(stdout, 0, _IOLBF, 0);
     if (argc < 2) return 2;
-    SH = malloc(sizeof *SH); SH0 = malloc(sizeof *SH0); shared_setup(SH0); memcpy(SH, SH0, sizeof *SH);
+    AR = mmap(0, sizeof *AR, PROT_READ | PROT_WRITE, MAP_SHARED | MAP_ANONYMOUS, -1, 0);
+    COLD = !strncmp(argv[1], "cold", 4); if (COLD) argv[1] += 4;
+    SH = malloc(sizeof *SH); SH0 = malloc(sizeof *SH0);
+    if (!COLD) shared_setup(SH0);
+    else { /* the shared constant objects are prepared in a child; this process never executes library code */
+        pid_t pid = fork(); if (pid == 0) { shared_setup(&AR->sh0); _exit(0); } int st; while (waitpid(pid, &st, 0) < 0 && errno == EINTR) { } memcpy(SH0, &AR->sh0, sizeof *SH0); }
+    memcpy(SH, SH0, sizeof *SH);
     for (int t = 0; t < VP_MAXT; t++) { CTX[t] = malloc(sizeof(tctx)); REF[t] = malloc(sizeof(tctx)); }
     vp_reset_regions(); vp_register_shared(SH, sizeof *SH); for (int t = 0; t < VP_MAXT; t++) vp_register_private(t, CTX[t], sizeof(tctx));
     t_end = now() + 1e9;
@@ -86,7 +123,8 @@ int main(int argc, char **argv)
         NT = 2; int idx = 0; long done = 0, all = 0;
         for (int i = 0; i < NOPS; i++) for (int j = i; j < NOPS; j++, idx++) { all++; if (idx % nparts != part) continue; if (capped) continue; OPI[0] = i; OPI[1] = j; run_program(); done++; }
         if (capped) printf("CAPPED deadline reached after %ld of this process's programs (bound %d, shared_inputs %d)\n", done, BOUND, SHARED_IN);
-        printf("STAT programs %ld\nSTAT schedules %ld\nSETMAX max_scheduling_points %d\nSTAT instrumented_accesses %lu\nSTAT visible_accesses %lu\n", done, total_sched, maxpoints, vp_instrumented(), vp_visible());
+        printf("STAT programs %ld\nSTAT schedules %ld\nSETMAX max_scheduling_points %d\nSTAT instrumented_accesses %lu\nSTAT visible_accesses %lu\n", done, total_sched, maxpoints, COLD ? cold_instr : vp_instrumented(), COLD ? cold_vis : vp_visible());
+        if (COLD) printf("STAT cold_start_schedules %ld\n", total_sched);
         if (part == 0) printf("SAMPLE pairs of %d operations (%ld unordered pairs), preemption bound %d, %s inputs: e.g. [%s] vs [%s]; every schedule re-executed from scratch on real threads\n", NOPS, all, BOUND, SHARED_IN ? "shared constant" : "per-thread", OPS[9].name, OPS[21].name);
     } else if (!strcmp(argv[1], "triples")) {
         BOUND = atoi(argv[2]); int part = atoi(argv[3]), nparts = atoi(argv[4]); if (argc > 5) t_end = now() + atof(argv[5]);
